@@ -55,11 +55,12 @@ class IntegratorTemplate(abc.ABC):
             rtol = self.solver_dict['rtol']
             dState = self.solver_dict['dState']
             order = self.solver_dict['order']
+            # The smoothed scale only remembers accepted attempts: a rejected (possibly blown-up) attempt
+            # must not loosen the tolerance its own retries are judged by
+            system_scaling = D.ar_numpy.maximum(D.ar_numpy.abs(initial_state), D.ar_numpy.abs(dState / timestep))
             if "system_scaling" in self.solver_dict:
-                self.solver_dict["system_scaling"] = 0.8 * self.solver_dict["system_scaling"] +  0.2 * D.ar_numpy.maximum(D.ar_numpy.abs(initial_state), D.ar_numpy.abs(dState / timestep))
-            else:
-                self.solver_dict["system_scaling"] = D.ar_numpy.maximum(D.ar_numpy.abs(initial_state), D.ar_numpy.abs(dState / timestep))
-            total_error_tolerance = (atol + rtol * self.solver_dict["system_scaling"])
+                system_scaling = 0.8 * self.solver_dict["system_scaling"] + 0.2 * system_scaling
+            total_error_tolerance = (atol + rtol * system_scaling)
             with D.numpy.errstate(divide='ignore'):
                 epsilon_current = D.ar_numpy.reciprocal(D.ar_numpy.linalg.norm(diff / total_error_tolerance))
             if "epsilon_last" in self.solver_dict:
@@ -90,7 +91,10 @@ class IntegratorTemplate(abc.ABC):
                 self.solver_dict["epsilon_last_last"], self.solver_dict["epsilon_last"] = epsilon_last, epsilon_current
             corr = (1 + D.ar_numpy.arctan((safety_factor * corr - 1)))
             timestep = corr * timestep
-            return timestep, bool(corr < 0.9**2)
+            redo_step = bool(corr < 0.9**2)
+            if not redo_step:
+                self.solver_dict["system_scaling"] = system_scaling
+            return timestep, redo_step
 
     def get_error_estimate(self):
         return 0.0
